@@ -258,6 +258,23 @@ stands for a whole unguarded traversal of a value. -/
 def costFolded (c : Fn → Nat) (d : Nat) (f : Fn) : Nat :=
   if f.isData then (d + 1) * c f else c f
 
+/-! ### The stack the process has: documented constants of the arithmetic obligation (bytes) -/
+
+/-- Default main-thread stack (`ulimit -s 8192`). -/
+def mainStack : Nat := 8 * 1024 * 1024
+
+/-- The kernel copies `argv`/`envp` to the top of the main-thread stack and caps them at a quarter of
+the stack limit: an ARG_MAX-scale environment takes up to 2 MiB of the 8 MiB away from the interpreter. -/
+def envAllowance : Nat := mainStack / 4
+
+/-- What the evaluator may use beyond the budget line: frames above `stack_base` (main, CLI), the
+guard-free gap `G` and the deepest builtin below it.  The check measures the real overshoot on the debug
+and release binaries (28 KiB / 20 KiB) and requires it to stay within this allowance. -/
+def overshootAllowance : Nat := 64 * 1024
+
+/-- Slack for what no shape measured. -/
+def headroom : Nat := 512 * 1024
+
 /-! ### Front-end graphs: taken as they are extracted (names as bytes) -/
 
 def flatten (calls : List (Bytes × List Bytes)) : List (Bytes × Bytes) :=
